@@ -85,7 +85,9 @@ const DIRS: &[&str] = &["src/bundle", "src/sub"];
 /// source (checked at start-up), so a fingerprint that misses the difference leaves stale output:
 ///   0 / 1   generator (retain_lines / dense)            1 / 9   generator parameter (column_span)
 ///   0 / 2   skip_files on a property-less rule (F13)    0 / 6   apply_to_files on a property-less rule
-///   0 / 3   a rule removed / added                      4 / 5   a rule property value
+///   0 / 12  a rule removed / added                      4 / 5   a rule property value
+///   0 / 3   the bundle section (NO dependencies at all under 3)   0 / 13, 0 / 14, 13 / 14  bundle excludes
+///           (these change WHICH FILES an item pulls in: the links that survive `reset` matter)
 ///   7 / 8   the order of two rules                      0 / 10  a bundle setting
 ///   4 / 11  a filter on a rule that has properties
 /// (Root-level `skip_files` / `apply_to_files` are left to C19/C20: a source they exclude finishes
@@ -94,7 +96,7 @@ const CONFIGS: &[&str] = &[
     "{ rules: ['remove_comments', 'compute_expression'], bundle: { require_mode: 'path' } }",
     "{ rules: ['remove_comments', 'compute_expression'], bundle: { require_mode: 'path' }, generator: 'dense' }",
     "{ rules: ['remove_comments', { rule: 'compute_expression', skip_files: ['**/a.lua'] }], bundle: { require_mode: 'path' } }",
-    "{ rules: ['remove_comments'], bundle: { require_mode: 'path' } }",
+    "{ rules: ['remove_comments', 'compute_expression'] }",
     "{ rules: ['remove_comments', 'compute_expression', { rule: 'inject_global_value', identifier: 'DEBUG', value: true }], bundle: { require_mode: 'path' } }",
     "{ rules: ['remove_comments', 'compute_expression', { rule: 'inject_global_value', identifier: 'DEBUG', value: false }], bundle: { require_mode: 'path' } }",
     "{ rules: ['remove_comments', { rule: 'compute_expression', apply_to_files: ['**/sub/**'] }], bundle: { require_mode: 'path' } }",
@@ -103,6 +105,9 @@ const CONFIGS: &[&str] = &[
     "{ rules: ['remove_comments', 'compute_expression'], bundle: { require_mode: 'path' }, generator: { name: 'dense', column_span: 20 } }",
     "{ rules: ['remove_comments', 'compute_expression'], bundle: { require_mode: 'path', modules_identifier: '__M' } }",
     "{ rules: ['remove_comments', 'compute_expression', { rule: 'inject_global_value', identifier: 'DEBUG', value: true, skip_files: ['**/b.lua'] }], bundle: { require_mode: 'path' } }",
+    "{ rules: ['remove_comments'], bundle: { require_mode: 'path' } }",
+    "{ rules: ['remove_comments', 'compute_expression'], bundle: { require_mode: 'path', excludes: ['**/lib/**'] } }",
+    "{ rules: ['remove_comments', 'compute_expression'], bundle: { require_mode: 'path', excludes: ['./m1'] } }",
 ];
 
 /// the pairs that differ in exactly one respect (see above); both directions are run
@@ -111,7 +116,11 @@ const CONFIG_PAIRS: &[(usize, usize, &str)] = &[
     (1, 9, "generator parameter"),
     (0, 2, "skip_files of a property-less rule"),
     (0, 6, "apply_to_files of a property-less rule"),
-    (0, 3, "rule list"),
+    (0, 3, "bundle section (the dependency set of every item changes)"),
+    (0, 12, "rule list"),
+    (0, 13, "bundle excludes (a nested dependency is no longer pulled in)"),
+    (0, 14, "bundle excludes (a direct dependency is no longer pulled in)"),
+    (13, 14, "bundle excludes value"),
     (4, 5, "rule property value"),
     (7, 8, "rule order"),
     (0, 10, "bundle setting"),
@@ -1651,6 +1660,24 @@ fn main_run(report: &mut Report) {
         }
         report.hist("config_pair", what);
     }
+
+    // ---- a configuration change that SHRINKS (or grows) the dependency set of an item, then the item
+    // goes away and a former dependency is touched: no link may survive `reset` (directed, both tiers)
+    for new in [3usize, 13, 14] {
+        for dep in [F_M1, F_M2, F_DATA] {
+            for gone in [Op::Rm(F_ENTRY), Op::RmDir(0), Op::Rm(F_M1)] {
+                histories.push((canonical(&[Op::Cfg(new), Op::Process, gone, Op::Edit(dep, 1)]), false));
+                histories.push((canonical(&[Op::Cfg(new), Op::Process, gone, Op::Process, Op::Edit(dep, 1)]), false));
+                histories.push((canonical(&[Op::Cfg(new), Op::Process, gone, Op::Rm(dep)]), false));
+                histories.push((canonical(&[Op::Cfg(new), Op::Process, Op::Cfg(0), Op::Process, gone, Op::Edit(dep, 1)]), false));
+                report.count("dependency_set_change_histories", 4);
+            }
+        }
+        histories.push((canonical(&[Op::Edit(F_B, 1), Op::Process, Op::Cfg(new), Op::Process, Op::Rm(F_B), Op::Edit(F_DATA, 1)]), false));
+        histories.push((canonical(&[Op::Edit(F_B, 1), Op::Cfg(new), Op::Process, Op::Rm(F_B), Op::Rm(F_DATA)]), false));
+        report.count("dependency_set_change_histories", 2);
+    }
+    report.exhaustive.insert("dependency-set changes (no bundle section / bundle excludes) followed by the removal of the item (file, its folder, a bundled source) and an edit or removal of each former dependency".into(), true);
 
     // ---- exhaustive part: every configuration is a `cfg` step up to length 3 (quick: 2); the
     // length-4 layer uses the first four configurations
